@@ -30,7 +30,8 @@ type sandbox struct {
 	Outer string // parent of Root
 	Base  string
 	Anc   []string
-	Token string
+	Token string // part of canary file names
+	CTok  string // inside canary file contents only
 
 	Suffixes []string
 	Targets  []string // existing paths outside Root (files and dirs)
@@ -64,7 +65,7 @@ func canaryRecord(text string) []byte {
 }
 
 func newSandbox(dir string, anc []string, base, token string) *sandbox {
-	sb := &sandbox{S: filepath.Join(dir, "S"), Anc: anc, Base: base, Token: token, Suffixes: siblingSuffixes,
+	sb := &sandbox{S: filepath.Join(dir, "S"), Anc: anc, Base: base, Token: token, CTok: "CONTENT-" + token[6:], Suffixes: siblingSuffixes,
 		cache: map[string]cacheEnt{}}
 	sb.Outer = filepath.Join(append([]string{sb.S}, anc...)...)
 	sb.Root = filepath.Join(sb.Outer, base)
@@ -88,7 +89,7 @@ func mustWrite(p string, data []byte) {
 // build creates the tree and the canaries.
 func (sb *sandbox) build() {
 	mustMkdir(sb.Root)
-	can := canaryRecord(sb.Token)
+	can := canaryRecord(sb.CTok)
 	seedDir := func(d string) {
 		mustWrite(filepath.Join(d, "rec1"), can)
 		mustWrite(filepath.Join(d, "in1"), can)
